@@ -190,10 +190,10 @@ def scanGuid (cs : List Char) : Option (Str × List Char) := do
   let (e, r) ← takeN (isHex env) 12 r
   pure (a ++ '-' :: b ++ '-' :: c ++ '-' :: d ++ '-' :: e, r)
 
-/-- `_DATE = [1-9]\d{3}-(?:0\d|1[0-2])-(?:[0-2]\d|3[01])` (grammar.py:19) -/
+/-- `_DATE = \d{4}-(?:0\d|1[0-2])-(?:[0-2]\d|3[01])` (grammar.py:19) -/
 def scanDatePart : List Char → Option (Str × List Char)
   | y1 :: y2 :: y3 :: y4 :: '-' :: m1 :: m2 :: '-' :: d1 :: d2 :: r =>
-      if inCharRange '1' '9' y1 && env.isDigit y2 && env.isDigit y3 && env.isDigit y4
+      if env.isDigit y1 && env.isDigit y2 && env.isDigit y3 && env.isDigit y4
          && ((m1 == '0' && env.isDigit m2) || (m1 == '1' && inCharRange '0' '2' m2))
          && ((inCharRange '0' '2' d1 && env.isDigit d2) || (d1 == '3' && inCharRange '0' '1' d2))
       then some ([y1, y2, y3, y4, '-', m1, m2, '-', d1, d2], r) else none
